@@ -34,13 +34,13 @@ try:
             for f in glob.glob(os.path.join(mut, "*")):
                 if not f.endswith("patch.diff"):
                     if os.path.isdir(f):
-                        shutil.copytree(f, os.path.join(W, "mutant_demo", os.path.basename(f)), dirs_exist_ok=True)
+                        shutil.copytree(f, os.path.join(W, "mutant", os.path.basename(f)), dirs_exist_ok=True)
                     else:
-                        os.makedirs(os.path.join(W, "mutant_demo"), exist_ok=True); shutil.copy(f, os.path.join(W, "mutant_demo"))
-            txt = open(demo_sh).read().replace(agent, W).replace("/mutant/", "/mutant_demo/")
-            open(os.path.join(W, "mutant_demo", "demo.sh"), "w").write(txt)
+                        os.makedirs(os.path.join(W, "mutant"), exist_ok=True); shutil.copy(f, os.path.join(W, "mutant"))
+            txt = open(demo_sh).read().replace(agent, W)
+            open(os.path.join(W, "mutant", "demo.sh"), "w").write(txt)
             e2 = dict(env); e2.pop("CARGO_TARGET_DIR", None)
-            p = subprocess.run("bash -c 'set -o pipefail; bash mutant_demo/demo.sh 2>&1 | tail -15'", shell=True, cwd=W, env=e2,
+            p = subprocess.run("bash -c 'set -o pipefail; bash mutant/demo.sh 2>&1 | tail -15'", shell=True, cwd=W, env=e2,
                                stdout=subprocess.PIPE, stderr=subprocess.STDOUT, text=True, timeout=3600)
             rc, out = p.returncode, p.stdout
             return rc == 0, out[-800:]
